@@ -112,8 +112,7 @@ def lean_obligations(pid, log):
         path = os.path.join(LEAN, "PsaDhcp", "Props", m + ".lean")
         file_errs = [int(l) for f, l, _ in errs if f.endswith("Props/" + m + ".lean")]
         # errors in imported Proofs/Model files break every theorem of the module
-        dep_broken = rc != 0 and not file_errs and not any(f.endswith("Expect.lean") for f, _, _ in errs) and \
-            ("Props." + m) in out and "error" in out
+        dep_broken = rc != 0 and not errs   # the build failed in a way that names no project file: nothing is known to hold
         closure = import_closure("PsaDhcp.Props." + m)
         dep_errs = [f for f, _, _ in errs if f in closure and not f.endswith("Props/" + m + ".lean")]
         for name, a, b in theorem_spans(path):
@@ -325,6 +324,11 @@ def main(argv):
                     findings.append({"property": pid, "signature": "data-race:" + hashlib.sha256("\n".join(l for l in blk.split("\n") if "psa-dhcp/lib" in l)[:400].encode()).hexdigest()[:10],
                                      "stream": r["names"][0], "what": "the race detector reports a data race between handler goroutines / database calls",
                                      "ops": ["go1.26.8 test -race -tags verif -run %s (HX_N=%s, VERIF_SEED=%d)" % (r["test"], r.get("n", "?"), seed)], "observed": blk})
+                if pid in ("C09", "C01") and re.search(r"fatal error: concurrent map (writes|read and map write|iteration and map write)", r["full"] + r["tail"]):
+                    findings.append({"property": pid, "signature": "concurrent-map-access", "stream": r["names"][0],
+                                     "what": "concurrent lease-database calls corrupted the table (the Go runtime aborted the process: concurrent map access)",
+                                     "ops": ["go1.26.8 test -tags verif -run %s (VERIF_SEED=%d): concurrent LookupClientByDuid / UpdateClient on expired bindings" % (r["test"], seed)],
+                                     "observed": (re.search(r"fatal error: concurrent map[^\n]*", r["full"] + r["tail"]) or [""])[0]})
                 # a daemon that panics takes the test process down: the history that was being extended is on disk
                 m = re.search(r"^(panic: .*|fatal error: .*)$", r["tail"], re.M)
                 for nm in r["names"]:
